@@ -45,9 +45,9 @@ def norm_elems(t):
         return t
     if t[0] == "elem" and len(t) == 2:
         return ("elem", norm_elems(base_iter(t[1])))
-    if t[0] == "call":
+    if t[0] == "call" and len(t) == 5:
         return ("call", t[1], t[2], tuple(norm_elems(a) for a in t[3]), t[4])
-    if t[0] in ("mutated",):
+    if t[0] in ("mutated",) and len(t) == 4:
         return ("mutated", norm_elems(t[1]), t[2], t[3])
     return tuple(norm_elems(x) if isinstance(x, tuple) else x for x in t)
 
